@@ -678,7 +678,11 @@ func (rt *RoutingTable) sortForCleaning() {
 			switch {
 			case a.RoutingPrefix != b.RoutingPrefix:
 				// Group gossip entries by routing prefix.
-				return a.RoutingPrefix.Addr().Compare(b.RoutingPrefix.Addr())
+				// Prefixes of different rules may share their base address.
+				if cmp := a.RoutingPrefix.Addr().Compare(b.RoutingPrefix.Addr()); cmp != 0 {
+					return cmp
+				}
+				return a.RoutingPrefix.Bits() - b.RoutingPrefix.Bits()
 
 			case a.Path.TotalHops != b.Path.TotalHops:
 				// Sort by hop distance to dst.
